@@ -18,10 +18,10 @@ func init() {
 		Explain: "Decided (bit-provenance abstract interpretation of the two frame writers with symbolic payload lengths, plus guard/ordering rules): C13.hdr - for both roles, all three length forms (<=125, 126..65535 with BE16, >=65536 with BE64), " +
 			"final and non-final, compressed and not, data and control opcodes, messageWriter.flushFrame and Conn.WriteControl hand the transport exactly [FIN RSV1 0 0 opcode][MASK len7][extended length][masking key iff client][payload], " +
 			"the payload being the buffered bytes (masked iff client) followed by the extra slice, with the length fields equal to the number of payload bytes that follow; C13.ctl - control frames longer than 125 bytes or not final are " +
-			"refused before any transport write; C13.mask - mask bit, key and masking are selected by the same role test (shown by C13.hdr holding for both roles); C13.seq - after a non-final frame the writer continues with opcode 0, " +
+			"refused before any transport write; C13.mask - mask bit, key and masking are selected by the same role test (shown by C13.hdr holding for both roles), and every frame written is masked from position 0 of its own key; C13.seq - after a non-final frame the writer continues with opcode 0, " +
 			"an empty buffer and RSV1 cleared, and Close flushes a final frame; C13.hs - the accept key is base64(SHA-1(key + RFC 6455 GUID)), the server refuses non-GET/non-upgrade/wrong-version/empty-key requests and the client " +
 			"verifies status 101, Upgrade, Connection and the accept key. " +
-			"Not decided: payload integrity for all sizes x partitions x APIs x compression levels (buffer arithmetic of ncopy/Write/truncWriter and the deflate stream are runtime behaviour); the unsafe word-wise masking is trusted as upstream code.",
+			"Not decided: payload integrity for all sizes x partitions x APIs x compression levels (buffer arithmetic of ncopy/Write/truncWriter and the deflate stream are runtime behaviour); the bytes the unsafe word-wise masking produces are trusted as upstream code (its key-position accounting is decided: C13.unmask - every byte-wise XOR loop of maskBytes carries the key position and hands it on, word-wise loops step by a multiple of 4, every return hands back the carried position).",
 		Assume: []string{"maskBytes masks exactly the slice it is given (upstream gorilla code, pointer arithmetic outside Go's bounds checking)", "net.Conn.Write writes the whole buffer or fails", "layout transcribed from RFC 6455 5.2 and RFC 7692 6"},
 		Run:    runC13,
 	})
@@ -338,7 +338,7 @@ func wsWriteControlOut(r abs.Result) ([]abs.Seg, string) {
 // and control payloads are unmasked from position 0.
 func checkWSUnmask(c *Ctx) {
 	P, R := c.P, c.R
-	R.Require("C13.unmask", 3)
+	R.Require("C13.unmask", 4)
 	adv := P.Func("websocket", "(*Conn).advanceFrame")
 	rd := wsPayloadReader(P) // (*messageReader).Read, or the helper the per-frame read was extracted into
 	mb := P.Func("websocket", "maskBytes")
@@ -444,6 +444,32 @@ func checkWSUnmask(c *Ctx) {
 	R.Check(ok4, "C13.unmask", "websocket|advanceFrame|control-payload-unmasked-from-0", P.Pos(adv.Pos()),
 		"control frame payloads are unmasked with the frame's key from position 0 in the server role",
 		"control frame payloads are not unmasked with the frame's key from position 0", nil)
+	// (4) the masking routine accounts for every byte it masks in the position it returns
+	checkMaskAdvance(c, mb)
+	// (5) sending side: every frame carries a fresh key and is masked from key position 0 (RFC 6455 5.3: octet i of the
+	// frame's payload is XORed with octet i mod 4 of that frame's key) - a position carried from one frame of a message
+	// to the next rotates the key for a receiver that, rightly, restarts at 0
+	R.Require("C13.mask", 2)
+	for _, fn := range P.ModuleFuncs("websocket") {
+		if fn == adv || fn == rd {
+			continue
+		}
+		nw := 0
+		core.EachInstr(fn, func(in ssa.Instruction) {
+			call, ok := in.(*ssa.Call)
+			if !ok || call.Call.StaticCallee() != mb || len(call.Call.Args) != 3 {
+				return
+			}
+			if strings.HasSuffix(core.Path(call.Call.Args[0]), "readMaskKey") {
+				return // a receiving-side helper: covered by (1)-(3)
+			}
+			nw++
+			k, isK := core.ConstInt(call.Call.Args[1])
+			R.Check(isK && k == 0, "C13.mask", fmt.Sprintf("websocket|%s|frame-masked-from-key-position-0#%d", core.FuncName(fn), nw), P.InstrPos(call),
+				"the frame's payload is masked from position 0 of the frame's own key",
+				"a frame written by "+core.FuncName(fn)+" is masked starting at key position "+core.Path(call.Call.Args[1])+" instead of 0: every frame has its own key applied from its first payload byte, so the peer (which restarts at 0) unmasks the frame with a rotated key whenever the position is not a multiple of 4", nil)
+		})
+	}
 }
 
 func checkWSSeq(c *Ctx) {
